@@ -1,0 +1,35 @@
+//go:build verif
+
+// Machine-checked contracts for package audit (comment-only; see /verif/DESIGN.md).
+
+package audit
+
+//@ func (*Info).Marshal
+//@   property C06
+//@   modifies map(info.Attributes)
+//@   fresh ret0
+//@
+//@ func (*Info).GetMimeType
+//@   property C06
+//@   modifies nothing
+//@
+//@ func (*Info).AppendTo
+//@   property C06
+//@   modifies map(info.Attributes)
+//@   ghost writes int = 0
+//@   ghost appendMode bool = false
+//@   ghost opened *os.File = nil
+//@   ghost marshalled []byte = nil
+//@   ghost oneLine bool = false
+//@   ghost endsNL bool = false
+//@   ghost sameBytes bool = false
+//@   on call os.OpenFile(n, flag, _) ret (f, e): opened = f; \
+//@        appendMode = (flag == os.O_CREATE + os.O_APPEND + os.O_WRONLY && n == logFile)
+//@   on call (*Info).Marshal(i) ret (m, e): marshalled = m
+//@   on call (*os.File).Write(f, b) ret (n, e): writes = writes + 1; \
+//@        oneLine = (f == opened && len(b) == len(marshalled) + 1); endsNL = (b[len(b)-1] == 10); \
+//@        sameBytes = forall(j, 0, len(marshalled), b[j] == marshalled[j])
+//@   ensures @single_append_write ret0 == nil ==> writes == 1 && appendMode && oneLine
+//@   ensures @record_ends_with_newline ret0 == nil ==> endsNL
+//@   ensures @record_bytes_are_the_marshalled_json ret0 == nil ==> sameBytes
+//@   ensures @never_more_than_one_write writes <= 1
